@@ -501,7 +501,8 @@ Proof.
   induction cs as [|cd r IH]; intros i; simpl; [split; auto|].
   match goal with |- context [add_move_children r ?i'] => destruct (IH i') as [H1 H2]; set (i2 := i') in * end.
   assert (Hs : (count t (top i2) <= count t (top i))%nat /\ (forall e, In e (top i2) -> In e (top i))).
-  { unfold i2. destruct (find_index _ (top i)) as [mi|]; simpl.
+  { unfold i2. destruct (negb (manifest_mt (d_mt cd))); [split; auto|].
+    destruct (find_index _ (top i)) as [mi|]; simpl.
     - split; [apply swap_remove_count|intros e; apply swap_remove_in].
     - destruct (existsb _ (top i) || existsb _ (child i)); simpl; auto. }
   destruct Hs as [H3 H4]. split; [lia|auto].
@@ -663,6 +664,7 @@ Qed.
 Lemma move_children_keeps x : (ann_len x =? 0)%nat = false -> forall cs i, In x (top i) -> In x (top (add_move_children cs i)).
 Proof.
   intros Hx. induction cs as [|cd r IH]; intros i Hin; simpl; auto. apply IH.
+  destruct (negb (manifest_mt (d_mt cd))); [exact Hin|].
   destruct (find_index _ (top i)) as [mi|] eqn:Ef; simpl.
   - destruct (find_index_some _ _ _ Ef) as [y [H1 H2]]. apply (swap_remove_keeps _ _ x y Hin H1).
     intros ->. apply andb_true_iff in H2. destruct H2 as [_ H2]. congruence.
